@@ -53,6 +53,8 @@ var Features = []string{
 	"ftr-default",        // default footer in word/footer1.xml with its own .rels and media
 	"docProps",           // docProps/core.xml + docProps/app.xml with root relationships
 	"ext-hyperlink",      // TargetMode="External" hyperlink relationship + w:hyperlink with runs
+	"ext-links",          // TargetMode="External" relationships that are NOT hyperlinks: a linked picture (https URL with dot segments and a query) and a linked OLE file (file:/// URL)
+	"abs-target",         // an internal relationship whose Target is written as an absolute part name (/word/media/absolute.png)
 	"smartTag",           // runs inside w:smartTag
 	"ins",                // runs inside w:ins (tracked insertion)
 	"sdt-inline",         // runs inside w:sdt/w:sdtContent within a paragraph
@@ -258,6 +260,20 @@ func Compose(feats []string) []byte {
 	if has["ext-hyperlink"] {
 		id := docRel(RtHyperlink, "https://example.org/a?b=1", true)
 		body += `<w:p><w:r><w:t xml:space="preserve">[hl-before] </w:t></w:r><w:hyperlink r:id="` + id + `" w:history="1"><w:r><w:rPr><w:rStyle w:val="Hyperlink"/></w:rPr><w:t>[hl-text]</w:t></w:r></w:hyperlink><w:r><w:t xml:space="preserve"> [hl-after]</w:t></w:r></w:p>`
+	}
+	if has["ext-links"] {
+		id := docRel(RtImage, "https://example.com/pics/../img/./logo.png?size=2&v=1", true)
+		docPr++
+		body += strings.Replace(DrawingPara(id, docPr, 9525*3, 9525*2), `r:embed="`, `r:link="`, 1)
+		docRel(NsR+"/oleObject", "file:///C:/docs/linked%20sheet.xlsx", true)
+		body += `<w:p>` + run("[extlinks-after]") + `</w:p>`
+	}
+	if has["abs-target"] {
+		p.Defaults["png"] = "image/png"
+		p.Add("word/media/absolute.png", SmallPNG(3, 2, 77))
+		id := docRel(RtImage, "/word/media/absolute.png", false)
+		docPr++
+		body += DrawingPara(id, docPr, 9525*3, 9525*2)
 	}
 	if has["smartTag"] {
 		body += `<w:p>` + run("[st-before]") + `<w:smartTag w:uri="urn:schemas-microsoft-com:office:smarttags" w:element="place">` + run("[st-text]") + `</w:smartTag>` + run("[st-after]") + `</w:p>`
